@@ -562,6 +562,13 @@ class Interp(object):
             self._ordinals[key] = om
         k = om.get(id(st))
         spec = self.loops.get((fr.qual, k))
+        if spec is None and (fr.qual, '*') in self.loops:
+            # contracts selected by the shape of the loop (robust to renamed locals and to loops added / removed elsewhere)
+            got = self.loops[(fr.qual, '*')](st)
+            if got is not None:
+                spec, role = got
+                spec.node = st
+                return spec, "%s#loop[%s]" % (fr.qual.split('.')[-1], role)
         return spec, "%s#loop%d" % (fr.qual.split('.')[-1], k if k is not None else -1)
 
     def _check_inv(self, spec, fr, k, label):
